@@ -66,6 +66,7 @@ pub fn check_tx(world: &World, sc: &Scenario, i: usize, spec: &ScriptSpec, stora
         }
     }
     let before = vm.as_ref().errors_fired();
+    let refused_before = vm.as_ref().rec.borrow().range_refused;
     let mut hook = Robust {
         default_schedule: sc.gas == GasSched::Default,
         pokes: &spec.reg_pokes,
@@ -75,6 +76,11 @@ pub fn check_tx(world: &World, sc: &Scenario, i: usize, spec: &ScriptSpec, stora
     };
     let o = run_stepped(&mut vm, ready, &mut hook, sc.plan.step_cap as u64);
     let fired = vm.as_ref().errors_fired() > before;
+    // the simulated disk's own refusal of an oversized slot range is an injected I/O error too
+    let refused = vm.as_ref().rec.borrow().range_refused > refused_before;
+    if refused {
+        ctx.stats.inc("fault.storage_range_refused");
+    }
     ctx.stats.add("time.instructions", o.steps);
     if fired {
         ctx.stats.inc("fault.storage_io_error");
@@ -99,7 +105,7 @@ pub fn check_tx(world: &World, sc: &Scenario, i: usize, spec: &ScriptSpec, stora
         ctx.violate("unexpected-error", &format!("unexpected-error:{}", o.state.split('(').next().unwrap_or("")), format!("tx {i}: execution ended with {} (neither a program state nor a storage error)", o.state));
         return (true, snapshot);
     }
-    if o.storage_error && !(fault_armed && fired) {
+    if o.storage_error && !((fault_armed && fired) || refused) {
         ctx.violate("storage-error-without-fault", "storage-error-without-fault", format!("tx {i}: storage error reported although no fault was injected"));
         return (true, snapshot);
     }
